@@ -3,6 +3,7 @@ package props
 import (
 	"fmt"
 	"reflect"
+	"runtime"
 	"unsafe"
 
 	"github.com/mlange-42/ark/ecs"
@@ -709,6 +710,162 @@ func init() {
 			for _, v := range f {
 				r.Violations = append(r.Violations, *v)
 			}
+		}
+		return r
+	}
+}
+
+// ---------------------------------------------------------------- C11: payload-carrying relation components, type flags
+
+// relPayloadCase: a relation component with `size` payload bytes that is the largest (or only) component of
+// its archetype; a vacated or reset row must read as zero when it is re-used without initialisation.
+func relPayloadCase(size int, withFiller bool) (int, *drv.Violation) {
+	t := &thWorld{w: ecs.NewWorld(1), what: fmt.Sprintf("relation component with %d payload bytes (with a smaller plain component: %v)", size, withFiller)}
+	t.u = t.w.Unsafe()
+	world, u := t.w, t.u
+	rid := ecs.TypeID(world, thRel(size-1))
+	ids := []ecs.ID{rid}
+	if withFiller {
+		ids = append(ids, ecs.TypeID(world, thFiller(2)))
+	}
+	tg := world.NewEntity()
+	fill := func(e ecs.Entity, b byte) {
+		p := u.Get(e, rid)
+		for i := 0; i < size; i++ {
+			*(*byte)(unsafe.Add(p, i)) = b
+		}
+	}
+	zero := func(when string, e ecs.Entity) *drv.Violation {
+		t.steps++
+		p := u.Get(e, rid)
+		for i := 0; i < size; i++ {
+			if b := *(*byte)(unsafe.Add(p, i)); b != 0 {
+				return t.fail("%s: payload byte %d of a component created without a value reads %#x, expected 0", when, i, b)
+			}
+		}
+		return nil
+	}
+	var es []ecs.Entity
+	for i := 0; i < 3; i++ {
+		e := u.NewEntityRel(ids, ecs.RelID(rid, tg))
+		fill(e, 0x55)
+		es = append(es, e)
+	}
+	// swap-remove of the first row vacates the last one
+	if v := t.try("RemoveEntity(first row)", func() { world.RemoveEntity(es[0]) }); v != nil {
+		return t.steps, v
+	}
+	e4 := u.NewEntityRel(ids, ecs.RelID(rid, tg))
+	if v := zero("after a swap-remove", e4); v != nil {
+		return t.steps, v
+	}
+	fill(e4, 0x66)
+	// the whole table is reset (batch removal), then re-used
+	if v := t.try("RemoveEntities(all children)", func() { world.RemoveEntities(ecs.NewFilter0(world).Without(ecs.C[ct.CT9]()).Batch(), nil) }); v != nil {
+		return t.steps, v
+	}
+	tg = world.NewEntity()
+	for i := 0; i < 3; i++ {
+		e := u.NewEntityRel(ids, ecs.RelID(rid, tg))
+		if v := zero("after the table was emptied by a batch removal", e); v != nil {
+			return t.steps, v
+		}
+		fill(e, 0x77)
+	}
+	// the target dies: the rows move to the zero-target table and back
+	if v := t.try("RemoveEntity(target)", func() { world.RemoveEntity(tg) }); v != nil {
+		return t.steps, v
+	}
+	e5 := u.NewEntityRel(ids, ecs.RelID(rid, ecs.Entity{}))
+	if v := zero("in the zero-target table", e5); v != nil {
+		return t.steps, v
+	}
+	return t.steps, nil
+}
+
+type ptrComp struct {
+	P *ct.Big
+	N int64
+}
+
+// staleFlagsCase: a registration rejected on a locked world must not leave type flags behind for the type
+// that is registered next (a pointer-bearing one): its values must survive moves and collections.
+func staleFlagsCase(plainFirst bool) (int, *drv.Violation) {
+	t := &thWorld{w: ecs.NewWorld(1), what: fmt.Sprintf("pointer-bearing type registered right after a rejected registration (rejected type pointer-free: %v)", plainFirst)}
+	t.u = t.w.Unsafe()
+	world, u := t.w, t.u
+	other := ecs.ComponentID[ct.CP](world)
+	world.NewEntity()
+	q := ecs.NewFilter0(world).Query()
+	rejected := thFiller(90)
+	if !plainFirst {
+		rejected = thPtrFiller(90)
+	}
+	t.steps++
+	if !tryDo(func() { ecs.TypeID(world, rejected) }) {
+		q.Close()
+		return t.steps, t.fail("registering a type on a locked world did not panic")
+	}
+	q.Close()
+	m := ecs.NewMap1[ptrComp](world) // registered now, presumably with the ID of the rejected type
+	pid := ecs.ComponentID[ptrComp](world)
+	var es []ecs.Entity
+	for i := 0; i < 6; i++ {
+		es = append(es, m.NewEntity(&ptrComp{P: &ct.Big{int64(100 + i), 1, 2, 3}, N: int64(i)}))
+	}
+	check := func(when string) *drv.Violation {
+		t.steps++
+		for i, e := range es {
+			p := (*ptrComp)(u.Get(e, pid))
+			if p.P == nil || p.P[0] != int64(100+i) || p.N != int64(i) {
+				return t.fail("%s: the pointer-bearing component of entity %d no longer refers to its data", when, i)
+			}
+		}
+		return nil
+	}
+	for round := 0; round < 3; round++ {
+		for _, e := range es {
+			u.Add(e, other)
+		}
+		runtime.GC()
+		junk := make([]*ct.Big, 64) // re-use freed memory
+		for i := range junk {
+			junk[i] = &ct.Big{-1, -1, -1, -1}
+		}
+		if v := check(fmt.Sprintf("round %d, after moving to another archetype and a collection", round)); v != nil {
+			return t.steps, v
+		}
+		for _, e := range es {
+			u.Remove(e, other)
+		}
+		runtime.GC()
+		if v := check(fmt.Sprintf("round %d, after moving back and a collection", round)); v != nil {
+			return t.steps, v
+		}
+		runtime.KeepAlive(junk)
+	}
+	return t.steps, nil
+}
+
+func memorySweep() (int, int, []*drv.Violation) {
+	var fs []func() (int, *drv.Violation)
+	for _, size := range []int{1, 7, 8, 9, 16, 24, 33, 64, 100} {
+		for _, wf := range []bool{false, true} {
+			size, wf := size, wf
+			fs = append(fs, func() (int, *drv.Violation) { return relPayloadCase(size, wf) })
+		}
+	}
+	fs = append(fs, func() (int, *drv.Violation) { return staleFlagsCase(true) }, func() (int, *drv.Violation) { return staleFlagsCase(false) })
+	return runCases(fs...)
+}
+
+func init() {
+	// run in a process of its own (a heap corrupted by the implementation kills the process)
+	SubModes["C11mem"] = func(args []string) *SubResult {
+		c, s, f := memorySweep()
+		r := &SubResult{Cases: c, Steps: s}
+		for _, v := range f {
+			r.Violations = append(r.Violations, *v)
 		}
 		return r
 	}
